@@ -132,16 +132,17 @@ inductive Cmd where
   | sleep (dt : Nat)      -- real time passes; waiters whose deadline passes give up
   | revoke (i : Nat)      -- the harness revokes the client's lease
   | observe (i : Nat)     -- wait one keepalive interval, then read the client's lock context
+  | cancelCtx (i : Nat)   -- the context that was passed to client i's Lock/TryLock is cancelled or times out
   deriving Repr
 
 inductive Res where
-  | acquired | locked | timeout | sessionExpired | unlocked | blocked | revoked | ctxLive | ctxCancelled | ctxNone | misuse | slept
+  | acquired | locked | timeout | sessionExpired | unlocked | blocked | revoked | ctxLive | ctxCancelled | ctxNone | misuse | slept | done
   deriving Repr, DecidableEq
 
 def Res.str : Res → String
   | .acquired => "acquired" | .locked => "locked" | .timeout => "timeout" | .sessionExpired => "session-expired"
   | .unlocked => "unlocked" | .blocked => "blocked" | .revoked => "revoked" | .ctxLive => "ctx-live"
-  | .ctxCancelled => "ctx-session-done" | .ctxNone => "ctx-none" | .misuse => "misuse" | .slept => "slept"
+  | .ctxCancelled => "ctx-session-done" | .ctxNone => "ctx-none" | .misuse => "misuse" | .slept => "slept" | .done => "done"
 
 def noOlder (s : State) (i : Nat) : Bool := s.keys.all fun k => !(decide (k.2 < s.myRev i))
 
@@ -197,6 +198,9 @@ def exec (ttl : Nat) (s : State) : Cmd → State × Res
     else (s, .revoked)
   | .observe i =>
     (s, match s.ctx i with | .live => .ctxLive | .cancelled => .ctxCancelled | .none => .ctxNone)
+  -- the end of the acquiring context makes the watcher goroutine return; it is NOT a release: the key
+  -- and the session stay until Unlock (calcium rolls back under a fresh context before unlocking)
+  | .cancelCtx _ => (s, .done)
 
 def replay (ttl : Nat) : State → List Cmd → List Res
   | _, [] => []
